@@ -1,30 +1,33 @@
 (* C06: the C library (c/blake3.c behind the dispatcher) computes the specification.
    Statements only; proofs in Proofs/CFormulasP.v, Proofs/CHasherP.v, CHasherP2.v,
-   CHasherP3.v.  The model is Model/CHasher.v; `platform` / PlatformOK (Model/Platform.v)
-   stand for every CPU-feature level the dispatcher can select (C05 ties the real
-   kernels to PlatformOK); `stream spec_c64 o p n` is the specification's S[p .. p+n)
-   of the root output o (Spec/Tree.v); `Ok` in a conclusion means that no array index of
-   the model (cv_stack, cv_array, out, chunk buffer) left its bounds, no C assert fired
-   and no unsigned arithmetic wrapped.
+   CHasherP3.v, CHasherP4.v.  The model is Model/CHasher.v; `platform` / PlatformOK
+   (Model/Platform.v) stand for every CPU-feature level the dispatcher can select (C05 ties
+   the real kernels to PlatformOK); `stream spec_c64 o p n` is the specification's
+   S[p .. p+n) of the root output o (Spec/Tree.v); `Ok` in a conclusion means that no array
+   index of the model (cv_stack, cv_array, out, chunk buffer) left its bounds, no C assert
+   fired and no unsigned arithmetic wrapped.
 
-   Proved completely: C06_formulas_*, C06_output_root_bytes_spec, C06_reset_is_init,
-   C06_derive_key_agree, C06_zero_length_noops, C06_finalize_pure (+ the cl/f/cmp
-   observation), C06_subtree_to_parent_node_spec (the C compress_subtree_wide /
-   compress_subtree_to_parent_node = the specification tree), C06_merge_cv_stack_spec
-   and C06_push_cv_spec (the in-place byte stack under popcnt merging),
-   C06_update_loop_refines_partial (the whole `while (input_len > CHUNK_LEN)` loop of
-   blake3_hasher_update from any chunk-aligned state), C06_one_shot_spec_partial
-   (init, one update, finalize_seek for messages of at most one chunk).
-
-   NOT proved (statements kept here; see the end of the file): c_one_shot_spec for
-   messages longer than one chunk and c_update_refines for arbitrary update sequences.
-   What is missing is (a) the roll-up loop of finalize_seek over the invariant that
-   C06_update_loop_refines_partial establishes and (b) the "finish the partial chunk"
-   prefix of update; the stack arithmetic they need is in Proofs/StackArithP.v. *)
+   Everything below is proved completely (no partial results remain):
+   C06_formulas_*, C06_output_root_bytes_spec, C06_reset_is_init, C06_derive_key_agree,
+   C06_zero_length_noops, C06_finalize_pure (+ the cl/f/cmp observation),
+   C06_subtree_to_parent_node_spec (the C compress_subtree_wide /
+   compress_subtree_to_parent_node = the specification tree), C06_merge_cv_stack_spec and
+   C06_push_cv_spec (the in-place byte stack under popcnt merging), C06_update_loop_refines
+   (the `while (input_len > CHUNK_LEN)` loop of blake3_hasher_update from any chunk-aligned
+   state), and the end-to-end theorems
+     C06_one_shot_spec / C06_one_shot_hash  init, one update of any length < 2^64, finalize_seek;
+     C06_update_refines (+ _hash, _keyed, _derive_key)  init, ANY sequence of updates (arbitrary
+       split points, partial chunks left in the chunk state), finalize_seek = the specification
+       stream of the concatenation, for every key / flags and for the three public modes;
+     C06_reset_refines, C06_finalize_then_continue  reset starts a new message, finalize_seek is
+       a query after which updates continue.
+   They rest on the hasher invariant CInv of Proofs/CHasherP4.v (analogue of Inv in
+   Proofs/HasherP.v): established by hasher_init_base, preserved by hasher_update from any
+   state satisfying it, and sufficient for the roll-up loop of finalize_seek. *)
 From Coq Require Import NArith ZArith List Bool.
 From V Require Import Base.Res Base.Word Base.MachInt gen.GenConsts gen.GenFormulas
   Spec.Compress Spec.Tree Spec.Blake3 Model.Portable Model.Platform Model.RsChunk Model.RsWide Model.CHasher
-  Proofs.TreeP Proofs.WideP Proofs.XofP Proofs.StackArithP Proofs.CFormulasP Proofs.CHasherP Proofs.CHasherP2 Proofs.CHasherP3.
+  Proofs.TreeP Proofs.WideP Proofs.XofP Proofs.StackArithP Proofs.CFormulasP Proofs.CHasherP Proofs.CHasherP2 Proofs.CHasherP3 Proofs.CHasherP4.
 Import ListNotations.
 Open Scope N_scope.
 
@@ -146,7 +149,7 @@ Proof. exact c_push_cv_spec. Qed.
 (* the `while (input_len > BLAKE3_CHUNK_LEN)` loop of blake3_hasher_update, from any state whose chunk buffer is
    empty (LInv): it consumes a prefix of the input that leaves at most one chunk, and the stack then holds the
    specification subtrees of everything absorbed so far *)
-Theorem C06_update_loop_refines_partial : forall p, PlatformOK p -> forall K F, length K = 8%nat ->
+Theorem C06_update_loop_refines : forall p, PlatformOK p -> forall K F, length K = 8%nat ->
   forall fuel h m l input,
   LInv K F h m l -> len (m ++ input) < 2 ^ 64 -> (N.to_nat (len input / 1024) < fuel)%nat ->
   exists h' l' k, c_update_loop fuel p h input = Ok (h', drop k input) /\ LInv K F h' (m ++ take k input) l' /\
@@ -154,25 +157,106 @@ Theorem C06_update_loop_refines_partial : forall p, PlatformOK p -> forall K F, 
     ((k = 0 /\ h' = h /\ l' = l) \/ (0 < k /\ (len input - k = 0 -> exists pre a, exps l' = pre ++ [a; a]))).
 Proof. exact c_update_loop_spec. Qed.
 
-(* ---- one update, finalize_seek: messages of at most one chunk, every key / flags, every seek and length -------- *)
-Theorem C06_one_shot_spec_partial : forall p, PlatformOK p -> forall K F, length K = 8%nat ->
+(* ---- init, one update, finalize_seek: every message shorter than 2^64 bytes, every key / flags (i.e. every
+   initialiser), every previous content of the cv_stack memory, every seek and output length ------------------- *)
+Theorem C06_one_shot_spec : forall p, PlatformOK p -> forall K F, length K = 8%nat ->
   forall mem m seek out_len,
-  len m <= 1024 -> length mem = 55%nat -> seek + out_len <= 2 ^ 64 - 1 ->
+  length mem = 55%nat -> len m < 2 ^ 64 -> seek + out_len <= 2 ^ 64 - 1 ->
   (h <- c_hasher_update p (c_hasher_init_base mem K F) m ;; c_hasher_finalize_seek p h seek out_len) =
   Ok (stream spec_c64 (subtree_output spec_c8 tree_height K F 0 m) seek (N.to_nat out_len)).
-Proof. exact c_short_one_shot. Qed.
+Proof. exact c_one_shot_spec. Qed.
 
 (* blake3_hasher_init: the specification's extended output of the hash mode *)
-Theorem C06_one_shot_hash_partial : forall p, PlatformOK p -> forall mem m seek out_len,
-  len m <= 1024 -> length mem = 55%nat -> seek + out_len <= 2 ^ 64 - 1 ->
+Theorem C06_one_shot_hash : forall p, PlatformOK p -> forall mem m seek out_len,
+  length mem = 55%nat -> len m < 2 ^ 64 -> seek + out_len <= 2 ^ 64 - 1 ->
   (h <- c_hasher_update p (c_hasher_init mem) m ;; c_hasher_finalize_seek p h seek out_len) =
   Ok (b3_xof_mode Hash m seek (N.to_nat out_len)).
-Proof. intros p POK mem m seek n H1 H2 H3. exact (c_short_one_shot p POK IV 0 eq_refl mem m seek n H1 H2 H3). Qed.
+Proof. intros p POK. exact (c_one_shot_spec p POK IV 0 eq_refl). Qed.
 
-(* ---- non-vacuity: the model run of BLAKE3("abc") on the portable platform, and a two-chunk history ------------- *)
+(* ---- any sequence of updates i1 .. ik (the fold is update(.. update(update(h0, i1), i2) .., ik), stopping at the
+   first failure), then finalize_seek: the specification stream of i1 ++ .. ++ ik -------------------------------- *)
+Theorem C06_update_refines : forall p, PlatformOK p -> forall K F, length K = 8%nat ->
+  forall mem pieces seek out_len,
+  length mem = 55%nat -> len (concat pieces) < 2 ^ 64 -> seek + out_len <= 2 ^ 64 - 1 ->
+  exists h,
+    fold_left (fun r x => h <- r ;; c_hasher_update p h x) pieces (Ok (c_hasher_init_base mem K F)) = Ok h /\
+    c_hasher_finalize_seek p h seek out_len =
+    Ok (stream spec_c64 (subtree_output spec_c8 tree_height K F 0 (concat pieces)) seek (N.to_nat out_len)).
+Proof. exact c_update_refines. Qed.
+
+(* the three public modes: blake3_hasher_init, _init_keyed (32-byte key), _init_derive_key_raw (C06_derive_key_agree
+   covers _init_derive_key) *)
+Theorem C06_update_refines_hash : forall p, PlatformOK p -> forall mem pieces seek out_len,
+  length mem = 55%nat -> len (concat pieces) < 2 ^ 64 -> seek + out_len <= 2 ^ 64 - 1 ->
+  exists h,
+    fold_left (fun r x => h <- r ;; c_hasher_update p h x) pieces (Ok (c_hasher_init mem)) = Ok h /\
+    c_hasher_finalize_seek p h seek out_len = Ok (b3_xof_mode Hash (concat pieces) seek (N.to_nat out_len)).
+Proof. exact c_update_refines_hash. Qed.
+
+Theorem C06_update_refines_keyed : forall p, PlatformOK p -> forall mem key pieces seek out_len,
+  length key = 32%nat -> length mem = 55%nat -> len (concat pieces) < 2 ^ 64 -> seek + out_len <= 2 ^ 64 - 1 ->
+  exists h0 h, c_hasher_init_keyed mem key = Ok h0 /\
+    fold_left (fun r x => h <- r ;; c_hasher_update p h x) pieces (Ok h0) = Ok h /\
+    c_hasher_finalize_seek p h seek out_len = Ok (b3_xof_mode (KeyedHash key) (concat pieces) seek (N.to_nat out_len)).
+Proof. exact c_update_refines_keyed. Qed.
+
+Theorem C06_update_refines_derive_key : forall p, PlatformOK p -> forall mem ctx pieces seek out_len,
+  len ctx < 2 ^ 64 -> length mem = 55%nat -> len (concat pieces) < 2 ^ 64 -> seek + out_len <= 2 ^ 64 - 1 ->
+  exists h0 h, c_hasher_init_derive_key_raw p mem ctx = Ok h0 /\
+    fold_left (fun r x => h <- r ;; c_hasher_update p h x) pieces (Ok h0) = Ok h /\
+    c_hasher_finalize_seek p h seek out_len =
+    Ok (b3_xof_mode (DeriveKeyMaterial (b3_hash_mode DeriveKeyContext ctx)) (concat pieces) seek (N.to_nat out_len)).
+Proof. exact c_update_refines_derive_key. Qed.
+
+(* ---- reset discards what was absorbed; finalize_seek is a query and updates may continue after it --------------- *)
+Theorem C06_reset_refines : forall p, PlatformOK p -> forall K F, length K = 8%nat ->
+  forall mem pieces1 pieces2 seek out_len,
+  length mem = 55%nat -> len (concat pieces1) < 2 ^ 64 -> len (concat pieces2) < 2 ^ 64 -> seek + out_len <= 2 ^ 64 - 1 ->
+  exists h1 h,
+    fold_left (fun r x => h <- r ;; c_hasher_update p h x) pieces1 (Ok (c_hasher_init_base mem K F)) = Ok h1 /\
+    fold_left (fun r x => h <- r ;; c_hasher_update p h x) pieces2 (Ok (c_hasher_reset h1)) = Ok h /\
+    c_hasher_finalize_seek p h seek out_len =
+    Ok (stream spec_c64 (subtree_output spec_c8 tree_height K F 0 (concat pieces2)) seek (N.to_nat out_len)).
+Proof. exact c_reset_refines. Qed.
+
+Theorem C06_finalize_then_continue : forall p, PlatformOK p -> forall K F, length K = 8%nat ->
+  forall mem pieces1 pieces2 seek1 n1 seek2 n2,
+  length mem = 55%nat -> len (concat (pieces1 ++ pieces2)) < 2 ^ 64 ->
+  seek1 + n1 <= 2 ^ 64 - 1 -> seek2 + n2 <= 2 ^ 64 - 1 ->
+  exists h1 h2,
+    fold_left (fun r x => h <- r ;; c_hasher_update p h x) pieces1 (Ok (c_hasher_init_base mem K F)) = Ok h1 /\
+    c_hasher_finalize_seek p h1 seek1 n1 =
+    Ok (stream spec_c64 (subtree_output spec_c8 tree_height K F 0 (concat pieces1)) seek1 (N.to_nat n1)) /\
+    fold_left (fun r x => h <- r ;; c_hasher_update p h x) pieces2 (Ok h1) = Ok h2 /\
+    c_hasher_finalize_seek p h2 seek2 n2 =
+    Ok (stream spec_c64 (subtree_output spec_c8 tree_height K F 0 (concat (pieces1 ++ pieces2))) seek2 (N.to_nat n2)).
+Proof. exact c_finalize_then_continue. Qed.
+
+(* ---- non-vacuity: the model run of BLAKE3("abc") on the portable platform, and a multi-update history over a
+   5000-byte message (byte i = i mod 251): updates of 1, 1023 (completing the first chunk exactly), 2048 (two whole
+   chunks through the subtree path), 0 and 1928 bytes (one whole chunk and a partial one), finalize / finalize_seek
+   in between, then reset and a second message; every output equals the specification of the bytes absorbed so far.
+   Run on the portable platform and on the widest dispatch level. ------------------------------------------------ *)
 Example C06_nonvacuous_abc :
   c_run_case (c_platform 1) CMHash [COpUpdate 0 [97; 98; 99]; COpClone 0; COpFinalize 0 32; COpCmp 0 1] =
   ([CObXof digest_abc; CObSame true], Ok tt).
+Proof. vm_compute. reflexivity. Qed.
+
+Definition C06_msg (n : nat) : list N := map (fun i => N.of_nat i mod 251) (seq 0 n).
+Definition C06_history (m : list N) : list c_op :=
+  [COpUpdate 0 (take 1 m); COpUpdate 0 (take 1023 (drop 1 m)); COpFinalize 0 32;
+   COpUpdate 0 (take 2048 (drop 1024 m)); COpFinalizeSeek 0 63 3; COpUpdate0 0; COpUpdate 0 (drop 3072 m);
+   COpFinalizeSeek 0 5 70; COpReset 0; COpUpdate 0 (take 1500 m); COpFinalize 0 32].
+Definition C06_history_expect (m : list N) : list c_obs :=
+  [CObXof (b3_xof_mode Hash (take 1024 m) 0 32); CObXof (b3_xof_mode Hash (take 3072 m) 63 3);
+   CObXof (b3_xof_mode Hash m 5 70); CObXof (b3_xof_mode Hash (take 1500 m) 0 32)].
+
+Example C06_nonvacuous_multi_update :
+  c_run_case (c_platform 1) CMHash (C06_history (C06_msg 5000)) = (C06_history_expect (C06_msg 5000), Ok tt).
+Proof. vm_compute. reflexivity. Qed.
+
+Example C06_nonvacuous_multi_update_wide :
+  c_run_case (c_platform 16) CMHash (C06_history (C06_msg 5000)) = (C06_history_expect (C06_msg 5000), Ok tt).
 Proof. vm_compute. reflexivity. Qed.
 
 Print Assumptions C06_formulas_round_down.
@@ -191,21 +275,23 @@ Print Assumptions C06_subtree_to_parent_node_spec.
 Print Assumptions C06_wide_is_rs.
 Print Assumptions C06_merge_cv_stack_spec.
 Print Assumptions C06_push_cv_spec.
-Print Assumptions C06_update_loop_refines_partial.
-Print Assumptions C06_one_shot_spec_partial.
-Print Assumptions C06_one_shot_hash_partial.
+Print Assumptions C06_update_loop_refines.
+Print Assumptions C06_one_shot_spec.
+Print Assumptions C06_one_shot_hash.
+Print Assumptions C06_update_refines.
+Print Assumptions C06_update_refines_hash.
+Print Assumptions C06_update_refines_keyed.
+Print Assumptions C06_update_refines_derive_key.
+Print Assumptions C06_reset_refines.
+Print Assumptions C06_finalize_then_continue.
 Print Assumptions C06_nonvacuous_abc.
+Print Assumptions C06_nonvacuous_multi_update.
+Print Assumptions C06_nonvacuous_multi_update_wide.
 
-(* ---- targets that are NOT proved: full statements ---------------------------------------------------------------
-   c_one_shot_spec: for every PlatformOK p, every initialiser (K, F) with length K = 8, length mem = 55,
-     len m < 2^64, seek + out_len <= 2^64 - 1:
-       (h <- c_hasher_update p (c_hasher_init_base mem K F) m ;; c_hasher_finalize_seek p h seek out_len)
-       = Ok (stream spec_c64 (subtree_output spec_c8 tree_height K F 0 m) seek (N.to_nat out_len)).
-     Proved above for len m <= 1024; for longer m C06_update_loop_refines_partial gives the stack after the loop,
-     the roll-up loop of finalize_seek (c_finalize_loop) over it is not done.
-   c_update_refines: for every sequence of inputs i1 .. ik with len (i1 ++ .. ++ ik) < 2^64, folding
-     c_hasher_update over them from c_hasher_init_base mem K F is Ok h with
-       c_hasher_finalize_seek p h seek out_len
-       = Ok (stream spec_c64 (subtree_output spec_c8 tree_height K F 0 (i1 ++ .. ++ ik)) seek (N.to_nat out_len)).
-     Needs in addition the "finish the partial chunk" prefix of update (one c_push_cv of a chunk CV on an SDom stack:
-     C06_push_cv_spec + dom_push apply). *)
+(* ---- status -------------------------------------------------------------------------------------------------------
+   The two end-to-end targets that earlier versions of this file listed as not proved are now C06_one_shot_spec
+   (c_one_shot_spec: every message shorter than 2^64 bytes) and C06_update_refines (c_update_refines: every sequence
+   of updates).  Proofs/CHasherP4.v supplies what was missing: the roll-up loop of finalize_seek (c_finalize_loop_spec,
+   c_final_output_spec: the analogue of final_output_spec in Proofs/HasherP.v), the tail of update (the last partial
+   chunk and the extra merge: c_update_tail_spec) and the "finish the partial chunk" prefix (c_hasher_update_spec),
+   over the invariant CInv.  Nothing in C06 remains partial. *)
